@@ -463,6 +463,35 @@ def total_qubits(x):
     return x['N'] if x['N'] is not None else last + 1
 
 
+def own_qubits(x):
+    if len(x['entries']) != 1:
+        return False
+    q = x['entries'][0]['qubits']
+    if q[0] == 'float':
+        return False
+    nq = 1 if q[0] == 'int' else len(q[1])
+    try:
+        return total_qubits(x) == nq
+    except Exception:       # noqa
+        return False
+
+
+def shortcut_applies(x):
+    """documented: one pulse mapped to its own qubits, nothing to add, nothing to rename"""
+    if not own_qubits(x):
+        return False
+    e = x['entries'][0]
+    dim_ok = e['pulse']['d'] == x['dpq'] ** (1 if e['qubits'][0] == 'int' else len(e['qubits'][1]))
+    return x['add'] is None and e['mapping'] is None and e['pulse']['ispulse'] and dim_ok
+
+
+def shortcut_skips(x):
+    """the implementation takes the shortcut although an additional noise Hamiltonian or a mapping was given"""
+    e = x['entries'][0] if x['entries'] else None
+    return own_qubits(x) and e['pulse']['ispulse'] and e['pulse']['d'] == x['dpq'] ** (1 if e['qubits'][0] == 'int' else len(e['qubits'][1])) \
+        and (x['add'] is not None or e['mapping'] is not None)
+
+
 def extend_corruptions(x):
     out = []
     out.append(('empty-mapping', DOC, dict(x, entries=[])))
@@ -886,6 +915,10 @@ def collect_cases(ctx, thorough):
                    'mapping-duplicate-identifiers': 'c20-mapping-duplicate-identifiers-accepted',
                    'not-a-pulse': 'c20-extend-non-pulse-attributeerror',
                    'non-integer-qubit': 'c20-extend-noninteger-qubit'}.get(nm)
+            if shortcut_skips(c):
+                sig = 'c20-extend-single-pulse-shortcut'
+            elif shortcut_applies(c):
+                doc = ()                # a single pulse on its own qubits is returned as it is, whatever the cache flags
             col.case('extend', nm, 'validate_extend %s' % extend_c(c), real_extend(c), doc, c, sig)
         m = gen_remap(r)
         col.case('remap', 'valid', 'validate_remap %s' % remap_c(m), real_remap(m), (), m)
